@@ -443,7 +443,10 @@ def rule_r7_union_extent(ctx: Ctx) -> None:
 
 # ---------------------------------------------------------------------------------------------------- R8 directives
 def rule_r8_directives(ctx: Ctx, rid: str = "C05.R8") -> None:
-    repo = ctx.repo
+    """the statement stream processor driven through its public callbacks (builder_common): which sequences of directives,
+    attributes and markers are accepted, and what the accepted ones make of the definition"""
+    from .parser_common import Line, ParserModel, read_lines, text_of
+
     ctx.rule(
         rid,
         "directive / marker handlers: exactly one of @sealed/@extent per schema, @extent after the last attribute, @union/@deprecated "
@@ -452,234 +455,100 @@ def rule_r8_directives(ctx: Ctx, rid: str = "C05.R8") -> None:
         min_instances=9,
     )
     b = ctx.cls("_data_type_builder.DataTypeBuilder")
-    dsb_mod = repo.module("_data_schema_builder")
+    where = b.module.relpath
+    pm = ParserModel(ctx)
+    F = lambda n="a": Line("F", n)  # noqa: E731
+    K = lambda n="K": Line("K", n)  # noqa: E731
+    P = Line("P")
+    M = Line("M")
 
-    CUR = "self._structs[-1]"
+    def D(name: str, value: Any = None) -> Any:
+        return Line("D", directive=name) if value is None else Line("X", directive=name, value=value)
 
-    def atomize_for(fn: FuncInfo) -> Any:
-        vname = fn.params[2] if len(fn.params) >= 3 else None
+    R = lambda v: ("Rational", v)  # noqa: E731
+    Bo = lambda v: ("Boolean", v)  # noqa: E731
+    St = lambda v: ("String", v)  # noqa: E731
+    S, U, DEP = D("sealed"), D("union"), D("deprecated")
+    E = lambda v=64: D("extent", R(v))  # noqa: E731
+    rejected_classes: Set[str] = set()
 
-        def atomize(e: Any) -> Any:
-            if isinstance(e, tuple):
-                raise AnalysisError("%s: unexpected marker %s" % (fn.qualname, e[0]))
-            s = norm(e)
-            if s == CUR + ".serialization_mode is not None":
-                return A("MODE_SET")
-            if s == CUR + ".serialization_mode is None":
-                return f_not(A("MODE_SET"))
-            if vname and s == "%s is None" % vname:
-                return A("VALUE_NONE")
-            if vname and s == "%s is not None" % vname:
-                return f_not(A("VALUE_NONE"))
-            if s == CUR + ".union":
-                return A("UNION")
-            if s == CUR + ".attributes":
-                return A("HAS_ATTRS")
-            if s in ("any((s.attributes for s in self._structs))", "any([s.attributes for s in self._structs])", "any((x.attributes for x in self._structs))"):
-                # some schema (the current one, or - in the response section - the request) already has attributes
-                return f_or(A("HAS_ATTRS"), f_and(A("IN_RESPONSE"), A("PREV_HAS_ATTRS")))
-            if s == "self._structs[0].attributes":
-                return f_or(f_and(f_not(A("IN_RESPONSE")), A("HAS_ATTRS")), f_and(A("IN_RESPONSE"), A("PREV_HAS_ATTRS")))
-            if s == "self._is_deprecated":
-                return A("DEPRECATED")
-            if s == "len(self._structs) > 1":
-                return A("IN_RESPONSE")
-            if vname and s == "%s.native_value" % vname:
-                return A("TRUE")
-            if isinstance(e, ast.Call) and dotted(e.func) == "isinstance" and len(e.args) == 2:
-                k = repo.resolve_expr(fn.module, e.args[1], b)
-                subj = norm(e.args[0])
-                if isinstance(k, ClassInfo):
-                    if vname and subj == vname and k.name in ("Rational", "Boolean"):
-                        return A("VALUE_" + k.name.upper())
-                    if subj == CUR + ".serialization_mode" and k.name == "DelimitedSerializationMode":
-                        return A("MODE_DELIMITED")
-            raise AnalysisError("%s: condition outside the abstraction: %s" % (fn.qualname, s))
-
-        return atomize
-
-    def decide(fn_name: str, atoms: Sequence[str], reject: Any, consistent: Any = None, effect: Optional[str] = None, effect_desc: str = "") -> None:
-        fn = b.methods.get(fn_name)
-        if fn is None:
-            raise AnalysisError("anchor DataTypeBuilder.%s missing" % fn_name)
-        paths = paths_of(fn.node)
-        at = atomize_for(fn)
-        forms = [(p, path_formula(p, at)) for p in paths]
-        used: List[str] = []
-        from ..decide import f_atoms
-
-        for _, f in forms:
-            for a in f_atoms(f):
-                if a not in used:
-                    used.append(a)
-        optional = [a for a in used if a in ("IN_RESPONSE", "PREV_HAS_ATTRS") and a not in atoms]
-        extra = [a for a in used if a not in atoms and a not in optional]
-        if extra:
-            raise AnalysisError("%s: guard uses atoms outside the rule's vocabulary: %s" % (fn.qualname, extra))
-        atoms = list(atoms) + optional
-        bad = []
-        nonide = []
-        for val in valuations(list(atoms), consistent):
-            taken = [p for p, f in forms if f_eval(f, val)]
-            ctx.count()
-            if len(taken) != 1:
-                raise AnalysisError("%s: %d feasible paths for %s" % (fn.qualname, len(taken), val))
-            p = taken[0]
-            rejected = p.kind == "raise"
-            if rejected != bool(reject(val)):
-                bad.append({"state": {k: v for k, v in val.items()}, "found": "reject" if rejected else "accept"})
-            if rejected and not _raises_ide(ctx, fn, p.value):
-                nonide.append(unparse(p.value))
-            if not rejected and effect is not None:
-                evs = [norm(ev) if isinstance(ev, ast.AST) else ("%s = %s" % (ev[1][0], norm(ev[2])) if ev[0] == "assign" else str(ev[0])) for ev in p.events]
-                if not any(effect.replace(" ", "") == x.replace(" ", "").replace("_data_schema_builder.", "") for x in evs):
-                    bad.append({"state": val, "missing_effect": effect, "events": evs})
-        ctx.check(not bad, fn.short, "decision table", effect_desc, fn.where(), bad[:4])
-        ctx.check(not nonide, fn.short, "rejection class", "rejections must be InvalidDefinitionError subclasses", fn.where(), nonide)
-
-    decide("_on_sealed_directive", ["MODE_SET", "VALUE_NONE"], lambda v: v["MODE_SET"] or not v["VALUE_NONE"], None, CUR + ".set_serialization_mode(SealedSerializationMode())", "@sealed: rejected iff a mode is already set or an expression is given; otherwise the schema becomes sealed")
-    decide(
-        "_on_extent_directive",
-        ["MODE_SET", "VALUE_NONE", "VALUE_RATIONAL"],
-        lambda v: v["MODE_SET"] or v["VALUE_NONE"] or not v["VALUE_RATIONAL"],
-        lambda v: not (v["VALUE_NONE"] and v["VALUE_RATIONAL"]),
-        None,
-        "@extent: rejected iff a mode is already set, or no expression, or a non-rational expression",
-    )
-    # effect of @extent (value flows into the delimited mode as an exact integer)
-    fn = b.methods["_on_extent_directive"]
-    vname = fn.params[2]
-    ok_effect = False
-    for p in paths_of(fn.node):
-        if p.kind != "raise":
-            for ev in p.events:
-                if isinstance(ev, ast.Call) and isinstance(ev.func, ast.Attribute) and ev.func.attr == "set_serialization_mode" and norm(ev.func.value) == CUR and len(ev.args) == 1:
-                    a0 = ev.args[0]
-                    if isinstance(a0, ast.Call) and (dotted(a0.func) or "").endswith("DelimitedSerializationMode") and [norm(x) for x in a0.args] == ["%s.as_native_integer()" % vname]:
-                        ok_effect = True
-    ctx.check(ok_effect, fn.short, "effect", "@extent stores the exact integer value as the delimited mode's extent", fn.where())
-    decide("_on_union_directive", ["VALUE_NONE", "UNION", "HAS_ATTRS"], lambda v: (not v["VALUE_NONE"]) or v["UNION"] or v["HAS_ATTRS"], None, CUR + ".make_union()", "@union: rejected iff an expression is given, duplicated, or placed after an attribute")
-    decide("_on_deprecated_directive", ["VALUE_NONE", "DEPRECATED", "IN_RESPONSE", "HAS_ATTRS"], lambda v: (not v["VALUE_NONE"]) or v["DEPRECATED"] or v["IN_RESPONSE"] or v["HAS_ATTRS"], None, "self._is_deprecated = True", "@deprecated: rejected iff an expression is given, duplicated, in the response section, or after an attribute")
-    decide("_on_attribute", ["MODE_DELIMITED"], lambda v: v["MODE_DELIMITED"], None, None, "an attribute after @extent is rejected")
-    decide("on_service_response_marker", ["IN_RESPONSE"], lambda v: v["IN_RESPONSE"], None, "self._structs.append(DataSchemaBuilder())", "a second `---` is rejected; the first starts a fresh response schema")
-    decide(
-        "_on_assert_directive",
-        ["VALUE_BOOLEAN", "VALUE_NONE", "TRUE"],
-        lambda v: not (v["VALUE_BOOLEAN"] and v["TRUE"]),
-        lambda v: not (v["VALUE_NONE"] and v["VALUE_BOOLEAN"]) and (v["VALUE_BOOLEAN"] or not v["TRUE"]),
-        None,
-        "@assert passes iff its expression is the boolean true",
-    )
-
-    # every attribute event goes through _on_attribute first
-    for m in ("on_field", "on_constant", "on_padding_field"):
-        fn = b.methods.get(m)
-        if fn is None:
-            raise AnalysisError("anchor DataTypeBuilder.%s missing" % m)
-        from ..core import body_without_docstring
-
-        body = body_without_docstring(fn.node)
-        first = body[0] if body else None
-        ctx.check(isinstance(first, ast.Expr) and norm(first.value) == "self._on_attribute()", fn.short, "placement guard first", "every attribute statement is checked against @extent placement before it is queued", fn.where(), nontrivial=False)
-
-    # dispatch table
-    od = b.methods.get("on_directive")
-    if od is None:
-        raise AnalysisError("anchor on_directive missing")
-    table: Optional[ast.Dict] = None
-    for n in walk_no_nested(od.node):
-        if isinstance(n, ast.Subscript) and isinstance(n.value, ast.Dict):
-            table = n.value
-            key_src = norm(n.slice)
-    if table is None:
-        raise AnalysisError("on_directive: dispatch dict not found")
-    mapping = {}
-    for k, v in zip(table.keys, table.values):
-        if not (isinstance(k, ast.Constant) and isinstance(k.value, str)):
-            raise AnalysisError("on_directive: non-literal key")
-        mapping[k.value] = norm(v)
-    want = {n: "self._on_%s_directive" % n for n in ("print", "assert", "extent", "sealed", "union", "deprecated")}
-    ctx.check(mapping == want and key_src == od.params[2], od.short, "directive table", "the six Specification directives dispatch to their handlers, keyed by the directive name", od.where(), mapping)
-    # unknown -> InvalidDirectiveError
-    unknown_ok = False
-    for n in walk_no_nested(od.node):
-        if isinstance(n, ast.Try):
-            for h in n.handlers:
-                if h.type is not None and dotted(h.type) in ("KeyError", "LookupError"):
-                    for r in ast.walk(ast.Module(body=h.body, type_ignores=[])):
-                        if isinstance(r, ast.Raise) and _raises_ide(ctx, od, r.exc):
-                            unknown_ok = True
-    ctx.check(unknown_ok, od.short, "unknown directive", "an unknown directive name must be rejected with an InvalidDefinitionError", od.where())
-    call_ok = any(isinstance(n, ast.Return) and isinstance(n.value, ast.Call) and norm(n.value.func) == "handler" and [norm(a) for a in n.value.args] == [od.params[1], od.params[3]] for n in walk_no_nested(od.node))
-    ctx.check(call_ok, od.short, "handler invocation", "the handler receives the directive's line and expression value", od.where(), nontrivial=False)
-
-    # _make_composite: mode required
-    mk = b.methods.get("_make_composite")
-    if mk is None:
-        raise AnalysisError("anchor _make_composite missing")
-    paths = paths_of(mk.node, opaque=["inner", "ty"])
-
-    def mk_atom(e: Any) -> Any:
-        if isinstance(e, tuple):
-            raise AnalysisError("_make_composite: unexpected marker")
-        if isinstance(e, ast.Call) and dotted(e.func) == "isinstance" and norm(e.args[0]) == "builder.serialization_mode":
-            k = repo.resolve_expr(mk.module, e.args[1], b)
-            if isinstance(k, ClassInfo) and k.name in ("DelimitedSerializationMode", "SealedSerializationMode"):
-                return A("IS_" + k.name[:-len("SerializationMode")].upper())
-        s2 = norm(e)
-        if s2 == "builder.serialization_mode is None":
-            return f_and(f_not(A("IS_DELIMITED")), f_not(A("IS_SEALED")))
-        if s2 == "builder.serialization_mode is not None":
-            return f_or(A("IS_DELIMITED"), A("IS_SEALED"))
-        raise AnalysisError("_make_composite: condition outside the abstraction: %s" % s2)
-
-    forms = [(p, path_formula(p, mk_atom)) for p in paths]
-    bad = []
-    outcomes = {}
-    for val in valuations(["IS_DELIMITED", "IS_SEALED"], lambda v: not (v["IS_DELIMITED"] and v["IS_SEALED"])):
-        taken = [p for p, f in forms if f_eval(f, val)]
+    def outcome(script: List[Any]) -> Any:
+        r = read_lines(pm, script, True)
         ctx.count()
-        if len(taken) != 1:
-            raise AnalysisError("_make_composite: %d feasible paths for %s" % (len(taken), val))
-        p = taken[0]
-        got = (p.kind, norm(p.value) if p.value is not None else None)
-        outcomes[str(val)] = list(got)
-        if val["IS_DELIMITED"]:
-            v = p.value
-            okk = p.kind == "return" and isinstance(v, ast.Call) and norm(v.func).endswith("DelimitedType") and norm(v.args[0]) == "inner" if isinstance(v, ast.Call) and v.args else False
-            if okk:
-                ext = [k.value for k in v.keywords if k.arg == "extent"] + list(v.args[1:2])
-                okk = len(ext) == 1 and norm(ext[0]) == "builder.serialization_mode.extent"
-        elif val["IS_SEALED"]:
-            okk = got == ("return", "inner")
-        else:
-            okk = p.kind == "raise" and _raises_ide(ctx, mk, p.value)
-        if not okk:
-            bad.append({"state": val, "found": list(got)})
-    ctx.check(not bad, mk.short, "serialization mode table", "delimited mode wraps in DelimitedType(extent), sealed returns the inner type, no mode is rejected", mk.where(), bad or outcomes)
-    # union flag selects the class
-    ty_ok = False
-    for n in walk_no_nested(mk.node):
-        if isinstance(n, ast.Assign) and norm(n.targets[0]) == "ty" and isinstance(n.value, ast.IfExp):
-            t = n.value
-            if norm(t.test) == "builder.union" and norm(t.body).endswith("UnionType") and norm(t.orelse).endswith("StructureType"):
-                ty_ok = True
-    ctx.check(ty_ok, mk.short, "kind selection", "@union selects UnionType, otherwise StructureType", mk.where())
+        if r.raised:
+            rejected_classes.add(r.raised)
+            return "reject"
+        kinds = [k for k, _ in r.ctor_log]
+        leafs = [kw for k, kw in r.ctor_log if k in ("StructureType", "UnionType")]
+        return {
+            "kinds": kinds,
+            "deprecated": [bool(kw.get("deprecated")) for kw in leafs],
+            "extents": [kw.get("extent") for k, kw in r.ctor_log if k == "DelimitedType"],
+            "attrs": [[getattr(a, "name", "?") for a in (kw.get("attributes") or [])] for kw in leafs],
+            "prints": r.prints,
+        }
 
-    # schema builder plumbing the atoms rely on
-    dsb = ctx.cls("_data_schema_builder.DataSchemaBuilder")
-    from ..regions import trivial_property_expr
+    def table(name: str, cases: List[Tuple[str, List[Any], Any]], message: str) -> None:
+        """cases: (label, lines, expected: "reject" | predicate over the accepted outcome)"""
+        bad = []
+        for label, script, want in cases:
+            got = outcome(script)
+            okk = (got == "reject") if want == "reject" else (got != "reject" and bool(want(got)))
+            if not okk:
+                bad.append({"text": text_of(script, True), "found": got if got == "reject" else {k: v for k, v in got.items() if v}, "expected": "rejected" if want == "reject" else "accepted with the stated effect"})
+        ctx.check(not bad, "_parser._ParseTreeProcessor x " + b.short, name, message, where, bad[:4])
 
-    for prop, want_e in (("serialization_mode", "self._serialization_mode"), ("union", "self._is_union")):
-        e = trivial_property_expr(repo, dsb, prop)
-        ctx.check(e is not None and norm(e) == want_e, dsb.short + "." + prop, norm(e) if e is not None else "?", "builder state accessor", dsb.module.relpath, nontrivial=False)
-    for meth, target, val in (("set_serialization_mode", "self._serialization_mode", None), ("make_union", "self._is_union", "True")):
-        fn = dsb.methods.get(meth)
-        if fn is None:
-            raise AnalysisError("anchor DataSchemaBuilder.%s missing" % meth)
-        stores = [n for n in walk_no_nested(fn.node) if isinstance(n, ast.Assign) and norm(n.targets[0]) == target]
-        good = len(stores) == 1 and (val is None and norm(stores[0].value) == fn.params[1] or val is not None and norm(stores[0].value) == val)
-        ctx.check(good, fn.short, norm(stores[0]) if stores else "?", "builder state mutator", fn.where(), nontrivial=False)
+    acc = lambda o: True  # noqa: E731
+    plain = lambda o: o["kinds"] == ["StructureType"]  # noqa: E731
+    table("@sealed", [
+        ("@sealed", [S], plain), ("field, @sealed", [F(), S], plain), ("@sealed, field", [S, F()], plain),
+        ("@sealed, @sealed", [S, S], "reject"), ("@extent, @sealed", [E(), S], "reject"), ("@sealed, @extent", [S, E()], "reject"),
+        ("@sealed <expression>", [D("sealed", R(1))], "reject"), ("@sealed true", [D("sealed", Bo(True))], "reject"),
+    ], "@sealed: rejected iff a mode is already set or an expression is given; otherwise the schema is sealed (no delimiter)")
+    delim = lambda n: (lambda o: o["kinds"] == ["StructureType", "DelimitedType"] and o["extents"] == [n])  # noqa: E731
+    table("@extent", [
+        ("@extent 64", [E(64)], delim(64)), ("field, @extent 128", [F(), E(128)], delim(128)), ("@extent 0", [E(0)], delim(0)),
+        ("@extent", [D("extent", None)], "reject"), ("@extent true", [D("extent", Bo(True))], "reject"), ("@extent 'x'", [D("extent", St("x"))], "reject"),
+        ("@extent, @extent", [E(), E()], "reject"), ("@sealed, @extent", [S, E()], "reject"),
+        ("@extent, field", [E(), F()], "reject"), ("@extent, constant", [E(), K()], "reject"), ("@extent, padding", [E(), P], "reject"),
+    ], "@extent: needs a rational expression, at most one mode per schema, no attribute after it; the value becomes the declared extent")
+    union = lambda o: o["kinds"] == ["UnionType"]  # noqa: E731
+    table("@union", [
+        ("@union, a, b, @sealed", [U, F("a"), F("b"), S], union), ("a, @union", [F("a"), U, F("b"), S], "reject"), ("constant, @union", [K(), U, F("a"), F("b"), S], "reject"),
+        ("@union, @union", [U, U, F("a"), F("b"), S], "reject"), ("@union <expression>", [D("union", R(1)), F("a"), F("b"), S], "reject"),
+        ("response union", [S, M, U, F("a"), F("b"), S], lambda o: o["kinds"] == ["StructureType", "UnionType", "ServiceType"]),
+        ("request union only", [U, F("a"), F("b"), S, M, S], lambda o: o["kinds"] == ["UnionType", "StructureType", "ServiceType"]),
+    ], "@union: rejected iff an expression is given, duplicated, or placed after an attribute; it applies to its own section")
+    table("@deprecated", [
+        ("@deprecated, @sealed", [DEP, S], lambda o: o["deprecated"] == [True]), ("@sealed", [S], lambda o: o["deprecated"] == [False]),
+        ("a, @deprecated", [F(), DEP, S], "reject"), ("constant, @deprecated", [K(), DEP, S], "reject"), ("@deprecated, @deprecated", [DEP, DEP, S], "reject"),
+        ("@deprecated <expression>", [D("deprecated", R(1)), S], "reject"), ("@deprecated in the response", [S, M, DEP, S], "reject"),
+        ("deprecated service", [DEP, S, M, S], lambda o: o["deprecated"] == [True, True]),
+    ], "@deprecated: rejected iff an expression is given, duplicated, in the response section, or after an attribute; it marks the whole definition")
+    table("`---`", [
+        ("@sealed --- @sealed", [S, M, S], lambda o: o["kinds"] == ["StructureType", "StructureType", "ServiceType"]),
+        ("a --- b", [F("a"), S, M, F("b"), S], lambda o: o["attrs"] == [["a"], ["b"]]),
+        ("two markers", [S, M, S, M, S], "reject"), ("marker, no response mode", [S, M], "reject"), ("no request mode", [M, S], "reject"),
+    ], "a second `---` is rejected; the first starts a fresh response schema; each section needs its own serialization mode")
+    table("@assert", [
+        ("@assert true", [D("assert", Bo(True)), S], acc), ("@assert false", [D("assert", Bo(False)), S], "reject"), ("@assert", [D("assert", None), S], "reject"),
+        ("@assert 1", [D("assert", R(1)), S], "reject"), ("@assert 'true'", [D("assert", St("true")), S], "reject"),
+    ], "@assert passes iff its expression is the boolean true")
+    table("@print and unknown directives", [
+        ("@print 7 on line 3", [Line("B"), Line("C", comment=" c"), D("print", R(7)), S], lambda o: len(o["prints"]) == 1 and o["prints"][0][0] == 3),
+        ("@print on line 2", [F(), D("print", None), S], lambda o: len(o["prints"]) == 1 and o["prints"][0][0] == 2),
+        ("@bogus", [D("bogus"), S], "reject"), ("@Sealed", [D("Sealed")], "reject"), ("@", [D("")], "reject"),
+    ], "@print delivers once with the directive's line; an unknown directive name is rejected")
+    table("serialization mode required", [
+        ("(empty)", [], "reject"), ("a", [F()], "reject"), ("@union a b", [U, F("a"), F("b")], "reject"), ("a, @sealed", [F(), S], acc),
+    ], "a definition without @sealed / @extent is rejected")
+    nonide = sorted(x for x in rejected_classes if not _ide_name5(ctx, x))
+    ctx.check(not nonide, b.short, "rejection classes: %s" % sorted(rejected_classes), "rejections must be InvalidDefinitionError subclasses", where, nonide)
+
+
+def _ide_name5(ctx: Ctx, name: str) -> bool:
+    k = next((k for k in ctx.repo.all_classes().values() if k.name == name), None)
+    return k is not None and ctx.repo.is_subclass(k, IDE)
 
 
 # ---------------------------------------------------------------------------------------------------- R9
